@@ -21,6 +21,9 @@ M = [
  ("c13-maturity-off-by-one", "C13", "chain/src/txhashset/utxo_view.rs", "\t\t\tif pos > cutoff_pos {\n\t\t\t\treturn Err(Error::ImmatureCoinbase);", "\t\t\tif pos > cutoff_pos + 1 {\n\t\t\t\treturn Err(Error::ImmatureCoinbase);", ["C13"]),
  ("c13-lock-height-ge", "C13", "core/src/core/block.rs", "\t\t\t\tif lock_height > self.header.height {", "\t\t\t\tif lock_height > self.header.height + 1 {", ["C13"]),
  ("c13-skip-nrd-index-rewind", "C13", "chain/src/txhashset/txhashset.rs", "\t\t\t\t\tkernel_index.rewind(batch, kernel.excess(), prev_header.kernel_mmr_size)?;", "\t\t\t\t\tlet _ = (&kernel_index, &prev_header);", ["C13"]),
+ ("c13-pool-skips-lock-height", "C13", "pool/src/transaction_pool.rs", "\t\tself.blockchain.verify_tx_lock_height(tx)?;", "", ["C13"]),
+ ("c13-pool-skips-maturity", "C13", "pool/src/transaction_pool.rs", "\t\tself.blockchain\n\t\t\t.verify_coinbase_maturity(&coinbase_inputs.as_slice().into())?;", "\t\tlet _ = &coinbase_inputs;", ["C13"]),
+ ("c13-tx-lock-height-lt", "C13", "chain/src/chain.rs", "\t\tif tx.lock_height() <= height {\n\t\t\tOk(())", "\t\tif tx.lock_height() < height {\n\t\t\tOk(())", ["C13"]),
  ("c02-skip-output-pos-restore", "C02", "chain/src/txhashset/txhashset.rs", "\t\t\t\t\tbatch.save_output_pos_height(&out.commitment(), pos1)?;\n\t\t\t\t}\n\t\t\t}\n\t\t}\n\n\t\tOk(affected_pos)", "\t\t\t\t\tlet _ = (&out, &pos1);\n\t\t\t\t}\n\t\t\t}\n\t\t}\n\n\t\tOk(affected_pos)", ["C02"]),
  ("c02-leafset-rewind-skip-or", "C02", "store/src/leaf_set.rs", "\t\tself.bitmap.or_inplace(&rewind_rm_pos);\n\t}\n\n\t/// Append a new position to the leaf_set.", "\t\tlet _ = &rewind_rm_pos;\n\t}\n\n\t/// Append a new position to the leaf_set.", ["C02", "C08"]),
  ("c08-leaf-shift-off-by-one", "C08", "store/src/prune_list.rs", "\t\tlet idx = self.bitmap.rank(1 + pos0 as u32);\n\t\tif idx == 0 {\n\t\t\treturn 0;\n\t\t}\n\t\tself.leaf_shift_cache", "\t\tlet idx = self.bitmap.rank(pos0 as u32);\n\t\tif idx == 0 {\n\t\t\treturn 0;\n\t\t}\n\t\tself.leaf_shift_cache", ["C08"]),
